@@ -1,2 +1,69 @@
--- stub: replaced by the C04 driver
-def main : IO Unit := pure ()
+/-
+  Driver.C04 — runs the C04 CodeModel (Golib.FailClosed.*) on byte strings.
+
+    V  <hex>          value.ReadValue, repaired code    →  ok <rest length> <alloc units> | fail <alloc units>
+    VF <hex>          value.ReadValue, code as found    →  same   (zero padding on short reads, make-before-check)
+    R  <kinds> <hex>  program of primitive reads, repaired  →  same
+    RF <kinds> <hex>  program of primitive reads, as found  →  same
+
+  <kinds> = comma separated read kinds (bool,byte,short,…,textArr) or `-`.
+  `VF`/`RF` must only be given inputs whose length fields are honest (prefixes of valid
+  encodings): the as-found model materialises the zero padding of a short read.
+-/
+import Golib.FailClosed.ValueA
+import Driver.Common
+
+open FailClosed Prim Drv
+
+def kindOp (k : String) : Option Op :=
+  match k with
+  | "bool" => some (.bool false)
+  | "byte" => some (.byte 0)
+  | "short" => some (.short 0)
+  | "ushort" => some (.ushort 0)
+  | "int3" => some (.int3 0)
+  | "int" => some (.int 0)
+  | "long5" => some (.long5 0)
+  | "long" => some (.long 0)
+  | "float" => some (.float 0)
+  | "double" => some (.double 0)
+  | "decimal" => some (.decimal 0)
+  | "blob" => some (.blob [])
+  | "text" => some (.text [])
+  | "shortBytes" => some (.shortBytes [])
+  | "intBytes" => some (.intBytes [])
+  | "textShort" => some (.textShort [])
+  | "shortArr" => some (.shortArr [])
+  | "intArr" => some (.intArr [])
+  | "longArr" => some (.longArr [])
+  | "floatArr" => some (.floatArr [])
+  | "doubleArr" => some (.doubleArr [])
+  | "textArr" => some (.textArr [])
+  | _ => none
+
+def showRes (r : Option (α × Bytes)) (c : Nat) : String :=
+  match r with
+  | some (_, rest) => s!"ok {rest.length} {c}"
+  | none => s!"fail {c}"
+
+def answer (line : String) : String :=
+  match line.splitOn " " with
+  | ["V", hex] =>
+    match ofHex hex with
+    | some bs => let a := decodeA true bs; showRes (A.run a bs) (A.cost a bs)
+    | none => "bad-op"
+  | ["VF", hex] =>
+    match ofHex hex with
+    | some bs => let a := decodeA false bs; showRes (A.runF a bs false) (A.costF a bs false)
+    | none => "bad-op"
+  | ["R", kinds, hex] =>
+    match parseList kindOp kinds, ofHex hex with
+    | some ops, some bs => let a := readAllA true ops; showRes (A.run a bs) (A.cost a bs)
+    | _, _ => "bad-op"
+  | ["RF", kinds, hex] =>
+    match parseList kindOp kinds, ofHex hex with
+    | some ops, some bs => let a := readAllA false ops; showRes (A.runF a bs false) (A.costF a bs false)
+    | _, _ => "bad-op"
+  | _ => "bad-op"
+
+def main : IO Unit := statelessLoop answer
